@@ -158,6 +158,14 @@ pub fn check_share(api: &str, t: &Type, secret: &Value, dealer_seed: u64, lost: 
         return Some(("reconstruction".into(), format!("parties {:?} (party {} lost) do not reconstruct the secret from the slots they hold", survivors, lost)));
     }
     *counters.entry(format!("reconstructions:lost-party-{}", lost)).or_insert(0) += 1;
+    // the two shares a party holds are independent: with >= 64 bits of content they are never equal
+    if ciphercore_base::data_types::get_size_in_bits(t.clone()).unwrap_or(0) >= 64 {
+        for s in 0..3usize {
+            if typed_eq(t, &bundles[s][s], &bundles[s][(s + 1) % 3]) {
+                return Some(("shares-not-independent".into(), format!("the two shares held by party {} are identical", s)));
+            }
+        }
+    }
     // the third slot of a party is junk: with >= 64 bits of content it must differ from the true share
     let bits = ciphercore_base::data_types::get_size_in_bits(t.clone()).unwrap_or(0);
     for p in 0..3usize {
@@ -186,9 +194,9 @@ pub fn check_share(api: &str, t: &Type, secret: &Value, dealer_seed: u64, lost: 
 pub fn distribution_check(seed: u64, n: usize, counters: &mut BTreeMap<String, u64>) -> Option<(String, String)> {
     let es = crate::dsl::es;
     let mut rng = Rng::new(seed ^ 0xD157);
-    let configs: Vec<(ScalarType, &str)> = vec![(UINT8, "get_local_shares_for_each_party"), (UINT64, "secret_share_for_parties"), (BIT, "get_local_shares_for_each_party"), (UINT8, "secret_share_for_parties")];
+    let configs: Vec<(ScalarType, &str)> = vec![(UINT8, "get_local_shares_for_each_party"), (UINT64, "secret_share_for_parties"), (BIT, "get_local_shares_for_each_party"), (UINT8, "secret_share_for_parties"), (UINT8, "share_vector")];
     for (st, api) in configs {
-        let t = if st == BIT { array_type(vec![8], BIT) } else { scalar_type(st) };
+        let t = if st == BIT { array_type(vec![8], BIT) } else if api == "share_vector" { array_type(vec![1], st) } else { scalar_type(st) };
         let secret_a = enc(&vec![0u128; if st == BIT { 8 } else { 1 }], st);
         let secret_b = if st == BIT { enc(&[1, 0, 1, 1, 0, 1, 1, 1], st) } else { enc(&[0xA7u128], st) };
         for p in 0..3usize {
@@ -249,6 +257,64 @@ pub fn distribution_check(seed: u64, n: usize, counters: &mut BTreeMap<String, u
     None
 }
 
+/// On-the-fly sharing done by `get_evaluator_result` (used by the ciphercore_evaluate CLI): an input given
+/// in plain form for a graph that expects three shares is split by the helper itself - under the type the
+/// GRAPH expects - evaluated, and revealed. The internal generator is seeded from the OS (not a seam the
+/// harness controls); the revealed result must be exact whatever it draws.
+pub fn cli_sharing_check(rng: &mut Rng, counters: &mut BTreeMap<String, u64>) -> Option<(String, String)> {
+    use crate::dsl::{GraphD, Prog, Step};
+    use crate::exec::{compile_case, Case, CompileOutcome, Inline, Owner};
+    use ciphercore_base::data_types::{INT16, INT32, INT64, UINT16, UINT32};
+    use ciphercore_base::evaluators::get_result_util::get_evaluator_result;
+    use ciphercore_base::graphs::Operation;
+    let (w, st) = *rng.pick(&[(8u64, UINT8), (16, UINT16), (16, INT16), (32, UINT32), (32, INT32), (64, UINT64), (64, INT64)]);
+    let bt = array_type(vec![w], BIT);
+    let arith = rng.chance(1, 3);
+    // XOR of two bit strings, or (control) addition of two integers of the same type
+    let (gt, op) = if arith { (scalar_type(st), Operation::Add) } else { (bt.clone(), Operation::Add) };
+    let prog = Prog {
+        graphs: vec![GraphD {
+            steps: vec![
+                Step { op: Operation::Input(gt.clone()), deps: vec![], gdeps: vec![] },
+                Step { op: Operation::Input(gt.clone()), deps: vec![], gdeps: vec![] },
+                Step { op, deps: vec![0, 1], gdeps: vec![] },
+            ],
+            output: 2,
+            ..Default::default()
+        }],
+    };
+    let a = rng.next_u128() & crate::vals::st_mask(st);
+    let b = rng.next_u128() & crate::vals::st_mask(st);
+    let case = Case { prog, owners: vec![Owner::Shared, Owner::Shared], outputs: vec![], inline: Inline::Simple, inputs: vec![enc(&[a], st), enc(&[b], st)] };
+    let c = match compile_case(&case) {
+        CompileOutcome::Ok(c) => c,
+        _ => return None,
+    };
+    // the caller passes plain integers (declared as integer scalars), also for the bit-string graph
+    let tvs = vec![TypedValue::new(scalar_type(st), enc(&[a], st)).ok()?, TypedValue::new(scalar_type(st), enc(&[b], st)).ok()?];
+    let ctx = c.compiled.clone();
+    let seed = seed_from_u64(rng.next_u64());
+    let r = guarded(move || get_evaluator_result(ctx, tvs, true, ciphercore_base::evaluators::simple_evaluator::SimpleEvaluator::new(Some(seed))?));
+    *counters.entry("cli-sharing:get_evaluator_result-runs".into()).or_insert(0) += 1;
+    let expect = if arith { a.wrapping_add(b) & crate::vals::st_mask(st) } else { a ^ b };
+    match r {
+        Err(p) => Some(("panic".into(), format!("get_evaluator_result panicked: {}", p))),
+        Ok(Err(e)) => Some(("cli-sharing".into(), format!("get_evaluator_result failed for plain {} inputs to a shared graph: {}", st, crate::dsl::es(e)))),
+        Ok(Ok(tv)) => {
+            let got = crate::vals::as_bytes(&tv.value).unwrap_or_default();
+            let want = crate::vals::as_bytes(&enc(&[expect], st)).unwrap_or_default();
+            if got != want {
+                Some((
+                    "cli-sharing".into(),
+                    format!("get_evaluator_result(share, evaluate, reveal) of {} {} {} over {} returned bytes {:?}, expected {:?}", a, if arith { "+" } else { "xor" }, b, crate::dsl::type_str(&gt), got, want),
+                ))
+            } else {
+                None
+            }
+        }
+    }
+}
+
 pub struct ShareOut {
     pub violation: Option<ShareReplay>,
     pub counters: BTreeMap<String, u64>,
@@ -264,7 +330,19 @@ pub fn run_c14(args: &Args) -> i32 {
         Tier::Thorough => (args.cases.unwrap_or(400_000), 400_000),
     };
     let mut counters: BTreeMap<String, u64> = BTreeMap::new();
-    let dist_v = distribution_check(args.seed, dist_n, &mut counters);
+    let mut dist_v = distribution_check(args.seed, dist_n, &mut counters);
+    if dist_v.is_none() {
+        let mut r = Rng::derive(args.seed, "C14-cli", 0);
+        for _ in 0..match args.tier {
+            Tier::Quick => 24,
+            Tier::Thorough => 400,
+        } {
+            if let Some(v) = cli_sharing_check(&mut r, &mut counters) {
+                dist_v = Some(v);
+                break;
+            }
+        }
+    }
     let results = run_cases(
         n,
         args.threads,
@@ -403,7 +481,17 @@ pub fn replay_cmd(path: &str) -> i32 {
         let seed = j.get("seed").and_then(|x| x.as_u64()).unwrap_or(0);
         let n = j.get("dealer_runs_per_world").and_then(|x| x.as_u64()).unwrap_or(40_000) as usize;
         let mut c = BTreeMap::new();
-        return match distribution_check(seed, n, &mut c) {
+        let mut v = distribution_check(seed, n, &mut c);
+        if v.is_none() {
+            let mut r = Rng::derive(seed, "C14-cli", 0);
+            for _ in 0..400 {
+                v = cli_sharing_check(&mut r, &mut c);
+                if v.is_some() {
+                    break;
+                }
+            }
+        }
+        return match v {
             Some((class, detail)) => {
                 println!("VIOLATION property=C14 replay={}", path);
                 println!("  class={} detail={}", class, detail);
